@@ -24,6 +24,10 @@ VARIANTS = {
     'asan': dict(cxx='g++', flags=['-std=c++17', '-O1', '-g', '-fsanitize=address,undefined', '-fno-sanitize-recover=all',
                                    '-fno-omit-frame-pointer', '-DSIM_SANITIZE'], ld=['-fsanitize=address,undefined']),
     'plain20': dict(cxx='g++', flags=['-std=c++20', '-O2', '-g0', '-DNDEBUG'], ld=[]),
+    # pre-C++17 builds carry the vector engine only (the headers select other implementations there; SmallSet needs C++17)
+    'plain14': dict(cxx='g++', flags=['-std=c++14', '-O2', '-g0', '-DNDEBUG', '-DSIM_VEC_ONLY'], ld=[], vec_only=True),
+    'asan14': dict(cxx='g++', flags=['-std=c++14', '-O1', '-g', '-fsanitize=address,undefined', '-fno-sanitize-recover=all',
+                                     '-fno-omit-frame-pointer', '-DSIM_SANITIZE', '-DSIM_VEC_ONLY'], ld=['-fsanitize=address,undefined'], vec_only=True),
 }
 WRAP = ['-Wl,--wrap=malloc,--wrap=realloc,--wrap=free']
 
@@ -66,9 +70,12 @@ def _prune(pattern, keep):
             shutil.rmtree(d, ignore_errors=True)
 
 
-def sim_sources():
+def sim_sources(vec_only=False):
     src = sorted(glob.glob(os.path.join(ROOT, 'sim', '*.cpp')) + glob.glob(os.path.join(ROOT, 'sim', 'tus', '*.cpp')))
-    return [s for s in src if not os.path.basename(s).startswith('x_')]
+    src = [s for s in src if not os.path.basename(s).startswith('x_')]
+    if vec_only:
+        src = [s for s in src if not os.path.basename(s).startswith('set_')]
+    return src
 
 
 def build(variant='plain', quiet=False):
@@ -90,7 +97,7 @@ def build(variant='plain', quiet=False):
         if not quiet:
             log('[build] %s: compiling simulator against %s/include ...' % (variant, REPO))
         os.makedirs(out, exist_ok=True)
-        srcs = sim_sources()
+        srcs = sim_sources(v.get('vec_only', False))
         objs = []
 
         def cc(src):
@@ -366,6 +373,8 @@ def triage(prop, cands, binaries, max_groups=24):
         if results[0] != results[1] or not results[0][4] or results[0][3] != '1':
             faults.append('replay gate failed for %s: %s vs %s' % (repf, results[0], results[1]))
             continue
+        with open(repf, 'a') as rf:
+            rf.write('variant %s\n' % c.variant)
         rc, sig = sim_cmd(binary, ['sig', repf])
         sig = sig.strip().splitlines()[-1] if sig.strip() else 'SIG ?'
         sig = 'variant=%s family=%s %s' % (c.variant, c.family, sig)
@@ -392,6 +401,9 @@ VEC_ALL = [e + '_' + k for e in ELEMS for k in ('basic', 'mixed', 'limits')] + [
 VEC_HOOKS = [e + '_' + k for e in ('ETr', 'ENonTr', 'ENonTrX') for k in ('basic', 'mixed', 'limits')]
 VEC_LIMITS = [e + '_limits' for e in ELEMS] + [e + '_basic' for e in ELEMS] + ['ETriv_mixed', 'ETr_mixed', 'ENonTr_mixed']
 VEC_SMALL = [e + '_' + k for e in ELEMS for k in ('basic', 'mixed')] + ['ETrivS_overlap']
+# library-style element types: std::string (SSO self-pointer), std::pair of (non-)relocatable members, a nested inline SmallVector
+VEC_EXOTIC = ['Str_basic', 'PairTN_basic', 'PairNT_basic', 'PairTT_basic', 'Nest_basic']
+VEC_EXOTIC_HOOKS = ['PairTN_basic', 'PairNT_basic', 'PairTT_basic', 'Nest_basic']
 
 
 def vjobs(profile, fams):
@@ -411,10 +423,10 @@ HIST_RULE = ('seeded operation histories (profile "%s") over a pool of 2-5 vecto
              '{basic, mixed, limits} allocator/size_type/N mixes + a pointer-overlap family + an arithmetic (double) element family); an evaluation is one run (one seed = one plan '
              'of ~25 operations plus its environment stream); distinct_nontrivial counts %s')
 CHECKS = {
-    'C01': dict(level='exploration', jobs=vjobs('hist', VEC_ALL), quick=('asan', 40), thorough=[('plain', 420), ('asan', 300), ('plain20', 120)], cellprop='1',
+    'C01': dict(level='exploration', jobs=vjobs('hist', VEC_ALL + VEC_EXOTIC), quick=[('asan', 42), ('plain14', 8)], thorough=[('plain', 420), ('asan', 300), ('plain20', 120), ('plain14', 120), ('asan14', 90)], cellprop='1',
                 rule=HIST_RULE % ('hist', '(type, operation kind, state class of target, state class of partner, outcome) cells reached')),
-    'C02': dict(level='exploration', jobs=vjobs('hist', VEC_HOOKS) + vjobs('inline', VEC_HOOKS[:6]) + sjobs('sethist', SET_HOOKS) + sjobs('setsmall', SET_HOOKS[2:]), quick=('asan', 40),
-                thorough=[('plain', 420), ('asan', 300)], cellprop='1',
+    'C02': dict(level='exploration', jobs=vjobs('hist', VEC_HOOKS + VEC_EXOTIC_HOOKS) + vjobs('inline', VEC_HOOKS[:6]) + vjobs('fault', ['ENonTr_basic', 'ETr_mixed', 'ENonTrX_limits', 'PairTN_basic']) + sjobs('sethist', SET_HOOKS) + sjobs('setsmall', SET_HOOKS[2:]) + sjobs('setfault', SET_HOOKS[1:3]), quick=[('asan', 42), ('plain14', 8)],
+                thorough=[('plain', 420), ('asan', 300), ('plain14', 120), ('asan14', 90)], cellprop='1',
                 rule=HIST_RULE % ('hist/inline, identity-recording element types only',
                                   '(type, operation kind, state classes, outcome) cells reached with the element ledger balanced after the step')),
     'C03': dict(level='exploration', jobs=sjobs('sethist', SET_FLAT), quick=('asan', 40), thorough=[('plain', 420), ('asan', 300), ('plain20', 120)], cellprop='3',
@@ -431,7 +443,7 @@ CHECKS = {
                 rule='SmallSet histories with full forward and reverse walks after every step, erase(position) at every position including the last '
                      'element of a large set, bounded erase-while-iterating loops; returned iterators are matched against a fresh walk before any '
                      'dereference; distinct_nontrivial counts (type, operation, |content|, state, crosses-boundary?, iterator class end/element) cells'),
-    'C19': dict(level='exploration', jobs=sjobs('setcmp', SET_FLAT) + sjobs('setsmall', SET_SMALL), quick=('plain', 30), thorough=[('plain', 420)],
+    'C19': dict(level='exploration', jobs=sjobs('setcmp', SET_FLAT) + sjobs('setsmall', SET_SMALL), quick=[('plain', 22), ('asan', 12)], thorough=[('plain', 420), ('asan', 120)],
                 thorough_profile_map={'setcmp': 'setcmp_big'}, cellprop='19',
                 rule='comparator-seam call counter on every lookup / position search of FlatSet histories with bulk-built sets of up to 1024 (quick) / '
                      '4096 (thorough) elements, hinted insertion with the correct hint computed from the model half of the time, and on inline '
@@ -451,8 +463,8 @@ CHECKS = {
                 rule=HIST_RULE % ('limit: fill_to_limit_minus(k) then every growing operation around the boundary',
                                   '(type, operation, distance to limit, count/position class, exception class) cells where a capacity-limit '
                                   'error was expected and checked')),
-    'C09': dict(level='fault_enumeration', jobs=vjobs('scenario', VEC_HOOKS + ['ETriv_basic', 'ETriv_mixed']) + vjobs('fault', VEC_HOOKS + ['ETriv_mixed']) + sjobs('scenario', SET_HOOKS) + sjobs('setfault', SET_HOOKS),
-                quick=('asan', 50), thorough=[('plain', 600), ('asan', 300)], cellprop='9',
+    'C09': dict(level='fault_enumeration', jobs=vjobs('scenario', VEC_HOOKS + ['ETriv_basic', 'ETriv_mixed', 'PairTN_basic', 'Nest_basic']) + vjobs('fault', VEC_HOOKS + ['ETriv_mixed', 'PairNT_basic', 'Str_basic']) + sjobs('scenario', SET_HOOKS) + sjobs('setfault', SET_HOOKS),
+                quick=[('asan', 42), ('plain14', 10)], thorough=[('plain', 600), ('asan', 300), ('plain14', 180), ('asan14', 120)], cellprop='9',
                 rule='mode A: a scenario (pool, prefix history of 0-12 operations, one final operation) is drawn by seed and its final operation is '
                      'executed once per fault index k=0,1,2,... for each fault kind (element throw, allocator failure) until an execution completes '
                      'without the fault firing, i.e. every throw point of that operation is visited; mode B: histories (profile "fault") where '
@@ -465,11 +477,11 @@ CHECKS = {
     'C13': dict(level='exploration', jobs=vjobs('swap2', VEC_ALL), quick=('asan', 40), thorough=[('plain', 420), ('asan', 240)], cellprop='13',
                 rule=HIST_RULE % ('swap2: operand states steered by macro operations, swap2 between any two pool members, interleaved with '
                                   'ordinary operations', '(ordered type pair, state class pair, outcome) cells')),
-    'C14': dict(level='exploration', jobs=vjobs('reloc', VEC_ALL) + sjobs('setreloc', SET_FLAT + SET_SMALL), quick=('asan', 40), thorough=[('plain', 420), ('asan', 240)], cellprop='14',
+    'C14': dict(level='exploration', jobs=vjobs('reloc', VEC_ALL + VEC_EXOTIC) + sjobs('setreloc', SET_FLAT + SET_SMALL), quick=('asan', 50), thorough=[('plain', 420), ('asan', 240)], cellprop='14',
                 rule=HIST_RULE % ('reloc: "memcpy the container object to a fresh address, scribble and free the old bytes" as a generated operation',
                                   '(type, state class at relocation) and (type, state class, following operation) cells')),
-    'C18': dict(level='exploration', jobs=vjobs('growth', [f for f in VEC_ALL]), quick=('plain', 30),
-                thorough=[('plain', 300)], thorough_profile='growth_big', cellprop='18',
+    'C18': dict(level='exploration', jobs=vjobs('growth', [f for f in VEC_ALL]) + vjobs('hist', ['ETriv_basic', 'ETr_mixed', 'ENonTr_basic', 'ENonTrX_mixed', 'ETr_limits']), quick=('plain', 30),
+                thorough=[('plain', 300)], thorough_profile_map={'growth': 'growth_big'}, cellprop='18',
                 rule=HIST_RULE % ('growth: start state by a short history, then n single appends (n up to 1200 quick / 5000 thorough), reserve and '
                                   'shrink_to_fit', '(type, start state class, n bucket, number of reallocations) cells')),
 }
@@ -576,11 +588,13 @@ def sample_plans(binary, jobs, seed, n=3):
 def run_sim_check(prop, tier, seed, seconds_override=None):
     spec = CHECKS[prop]
     t0 = time.time()
-    phases = [spec['quick']] if tier == 'quick' else spec['thorough']
+    phases = (spec['quick'] if isinstance(spec['quick'], list) else [spec['quick']]) if tier == 'quick' else spec['thorough']
     if tier == 'quick' and os.environ.get('VERIF_QUICK_VARIANT'):
-        phases = [(os.environ['VERIF_QUICK_VARIANT'], phases[0][1])]
+        # self-tests: replace the sanitizer build by the plain one (same language standard), keep the other phases
+        phases = [((os.environ['VERIF_QUICK_VARIANT'] + ('14' if v.endswith('14') else '')) if v.startswith('asan') else v, secs) for (v, secs) in phases]
     if seconds_override:
-        phases = [(v, seconds_override) for (v, _) in phases]
+        tot = float(sum(sec for (_, sec) in phases))
+        phases = [(v, max(3.0, seconds_override * sec / tot)) for (v, sec) in phases]
     binaries = {}
     searches = []
     jobs = spec['jobs']
@@ -595,9 +609,9 @@ def run_sim_check(prop, tier, seed, seconds_override=None):
     for (variant, seconds) in phases:
         binaries[variant] = build(variant)
     for (variant, seconds) in phases:
-        workers = min(NPROC, 8) if variant == 'asan' else NPROC
+        workers = min(NPROC, 8) if variant.startswith('asan') else NPROC
         s = Search(binaries[variant], variant, seed, seconds, workers)
-        s.run(jobs)
+        s.run([j for j in jobs if j[0] == 'vec'] if VARIANTS[variant].get('vec_only') else jobs)
         searches.append(s)
     cands = [c for s in searches for c in s.cands]
     faults = [f for s in searches for f in s.harness_faults]
@@ -642,6 +656,9 @@ def cmd_replay(path):
         return c20.replay(path)
     m = re.search(r'^expect (\S+) (\S+) (\S+)', txt, re.M)
     variant = 'asan' if ('CRASH' in txt and os.environ.get('VERIF_REPLAY_VARIANT') is None) else os.environ.get('VERIF_REPLAY_VARIANT', 'plain')
+    vm = re.search(r'^variant (\S+)', txt, re.M)
+    if vm and vm.group(1) in VARIANTS and os.environ.get('VERIF_REPLAY_VARIANT') is None:
+        variant = vm.group(1)  # the build the violation was found in (language standard, sanitizer)
     binary = build(variant)
     outs = []
     for _ in range(2):
@@ -688,7 +705,7 @@ def main(argv):
     seed = int(os.environ.get('VERIF_SEED', '1'))
     try:
         if cmd == 'build':
-            for v in (rest or ['plain', 'asan']):
+            for v in (rest or ['plain', 'asan', 'plain14']):
                 if v == 'aux':
                     import c15, c16, c20
                     with cf.ThreadPoolExecutor(NPROC) as ex:
